@@ -79,7 +79,7 @@ def scenarios(ctx):
     real_site = os.path.join(scratch, "harness-src", "fam_paths.go")
     tab_acts = ["AddMap", "RemoveMap", "ResetMap", "SetFlag"]
     rx_acts = ["AddRx", "RemoveRx", "ResetRx", "SetFlag", "ResetMap"]
-    nmaps = 3 if q else 5
+    nmaps = 2 if q else 5
     std = dict(home=HOME, cwd=CWD, maps=STD_MAPS[:nmaps], rxs=STD_RXS, inputs=STD_INPUTS, sites=STD_SITES,
                assumes=ALL_ASSUMES)
     res = []
@@ -87,7 +87,8 @@ def scenarios(ctx):
                     mcs=[dict(name="tab", acts=tab_acts, maxtab=5 if q else 8, maxrx=1, maps=std["maps"], rxs=[VOLRX])] +
                         ([] if q else [dict(name="rx", acts=rx_acts, maxtab=8, maxrx=3, maps=[], rxs=STD_RXS, assumes=RX_ASSUMES)])))
     res.append(dict(std, name="std-prod", testing=False, rand=(30, 12) if q else (400, 24),
-                    mcs=[dict(name="rx", acts=rx_acts, maxtab=8, maxrx=2 if q else 3, maps=[], rxs=STD_RXS, assumes=RX_ASSUMES)] +
+                    mcs=[dict(name="rx", acts=rx_acts, maxtab=8, maxrx=2 if q else 3, maps=[], rxs=STD_RXS[1:] if q else STD_RXS,
+                              assumes=RX_ASSUMES)] +
                         ([] if q else [dict(name="tab", acts=tab_acts, maxtab=8, maxrx=1, maps=STD_MAPS[:3], rxs=[VOLRX])])))
     small_inputs = ["/srv/secret/app/m.go", "/srv/secretx/m.go", "/opt/other/z.go", "/usr/x.go", "rel/a.go", "", "/",
                     "/vhome/user/a.go", "/usr/lib/go/x.go", "/usr/lib64/x.go", "/Volumes/vWork/work/a.go"]
@@ -120,7 +121,7 @@ def consts_of(sc, mc, devs=()):
     maps = [dict(k=B(k), v=B(v)) for k, v in mc["maps"]]
     keys = []
     for k in [m["k"] for m in maps] + [B(sc["home"]), B(sc["cwd"])]:
-        if k and k not in keys:
+        if k not in keys:                 # the empty directory (HOME unset) can be removed as well
             keys.append(k)
     return dict(Home=B(sc["home"]), Cwd=B(sc["cwd"]), Testing=sc["testing"], MapSeq=maps, KeySeq=keys,
                 RxSeq=mc["rxs"], Inputs=set(tuple(B(x)) for x in sc["inputs"]), MaxTab=mc["maxtab"],
@@ -315,7 +316,7 @@ def execute(ctx, sc, behaviours, tag, reps=64):
     return tp
 
 
-CHUNK = 1200      # trace lines validated by one TLC process
+CHUNK = 800      # trace lines validated by one TLC process
 
 
 def validate_chunk(ctx, sc, lines, tag):
